@@ -101,19 +101,23 @@ func structHasField(st *types.Struct, name string) bool {
 
 // requestFieldValue reports whether v is field `name` of request value req (direct load or generated getter).
 func isRequestField(v ssa.Value, req ssa.Value, name string) bool {
-	for _, s := range an.Sources(v) {
-		if base, _, f, ok := an.FieldOf(s); ok && f == name {
-			for _, b := range an.Sources(base) {
-				if b == req {
-					return true
-				}
-			}
-		}
-		if call, ok := s.(*ssa.Call); ok {
-			if f := call.Call.StaticCallee(); f != nil && f.Name() == "Get"+name && len(call.Call.Args) == 1 {
-				for _, b := range an.Sources(call.Call.Args[0]) {
+	// req may be a parameter of a helper the scan descended into: match it as such (opaque), and also through the
+	// helpers' call sites (transparent)
+	for _, srcs := range []func(ssa.Value) []ssa.Value{an.SourcesOpaque, an.Sources} {
+		for _, s := range srcs(v) {
+			if base, _, f, ok := an.FieldOf(s); ok && f == name {
+				for _, b := range srcs(base) {
 					if b == req {
 						return true
+					}
+				}
+			}
+			if call, ok := s.(*ssa.Call); ok {
+				if f := call.Call.StaticCallee(); f != nil && f.Name() == "Get"+name && len(call.Call.Args) == 1 {
+					for _, b := range srcs(call.Call.Args[0]) {
+						if b == req {
+							return true
+						}
 					}
 				}
 			}
